@@ -13,7 +13,7 @@ from . import common
 from . import c02_tree as T
 
 PROPERTY = 'C02'
-LEAN_TARGETS = ['CpProofs.C02', 'CpProofs.C02Fn', 'drv_c02']
+LEAN_TARGETS = ['CpProofs.C02', 'CpProofs.C02Fn', 'CpProofs.C02Mount', 'drv_c02']
 DRIVER = 'drv_c02'
 THEOREMS = [
     'CpProofs.C02.C02_exposed_only',
@@ -48,6 +48,10 @@ THEOREMS = [
     'CpProofs.C02Fn.C02_args_final_vpath',
     'CpProofs.C02Fn.C02_popargs_binds_popped',
     'CpProofs.C02Fn.C02_popargs_probe',
+    # mounts (Tree.script_name) in front of the dispatcher
+    'CpProofs.C02Mount.C02_most_specific_mount',
+    'CpProofs.C02Mount.C02_mount_segment_boundary',
+    'CpProofs.C02Mount.C02_root_mount_serves_all',
 ]
 LEVEL = 'proof'
 TECHNIQUE = ('Lean 4 proof: the transcription of Dispatcher.find_handler is proved equal to a declarative longest-prefix / '
@@ -798,13 +802,14 @@ def case_messages(c, want_purity=True):
     built tree and the two answers are compared (the choice is a function of (tree, path, method))."""
     hist = [tuple(h) for h in c.get('history') or []]
     built, view, obs, lines, again = run_tree(c['tree'], c['kind'], hist + [_case_req(c)],
-                                              want_purity and not hist, not c.get('plain'))
+                                              want_purity and not hist, not c.get('plain'), c.get('front'))
     msgs = oracle(built, c, obs[-1]) + expose_oracle(built)
     if again is not None and strip_obs(again[-1]) != strip_obs(obs[-1]):
         msgs.append(('the same request answered differently in a different history: %s vs %s'
                      % (strip_obs(obs[-1]), strip_obs(again[-1])), 'not_pure'))
     if hist:
-        b2, v2, fresh, l2, a2 = run_tree(c['tree'], c['kind'], [_case_req(c)], False, not c.get('plain'))
+        b2, v2, fresh, l2, a2 = run_tree(c['tree'], c['kind'], [_case_req(c)], False, not c.get('plain'),
+                                         c.get('front'))
         if strip_obs(fresh[0]) != strip_obs(obs[-1]):
             msgs.append(('the same request answered differently after the history %s: %s, on a fresh application %s'
                          % (hist, strip_obs(obs[-1]), strip_obs(fresh[0])), 'not_pure'))
@@ -868,22 +873,26 @@ def report_failure(ctx, case, what, sig, shrinker, history=None):
 
 # ----------------------------------------------------------------------------------------------
 def _rq(r):
-    """(path, method[, query[, body]]) -> (path, method, query, body)"""
+    """(path, method[, query[, body[, headers]]]) -> (path, method, query, body, headers)"""
     r = tuple(r)
-    return r + ('', None)[len(r) - 2:] if len(r) < 4 else r[:4]
+    return r + ('', None, None)[len(r) - 2:] if len(r) < 5 else r[:5]
 
 
 def _case_req(c):
-    return (c['path'], c['method'], c.get('query') or '', c.get('body'))
+    return (c['path'], c['method'], c.get('query') or '', c.get('body'), c.get('headers'))
 
 
-def _mk_case(spec, kind, r, instrument=True):
-    p, m, q, b = _rq(r)
+def _mk_case(spec, kind, r, instrument=True, front=None):
+    p, m, q, b, h = _rq(r)
     case = {'tree': spec, 'kind': kind, 'path': p, 'method': m}
     if q:
         case['query'] = q
     if b:
         case['body'] = b
+    if h:
+        case['headers'] = h
+    if front:
+        case['front'] = front
     if not instrument:
         case['plain'] = True
     return case
@@ -893,16 +902,16 @@ def has_mut(spec):
     return any((nd.get('disp') or {}).get('mut') for nd in spec['nodes'])
 
 
-def run_tree(spec, kind, reqs, purity=False, instrument=True):
+def run_tree(spec, kind, reqs, purity=False, instrument=True, front=None):
     """Build the tree, run the requests; returns (built, view, [obs], [line])."""
     built = T.Built(spec, instrument=instrument)
     reqs = [_rq(r) for r in reqs]
     paths = [r[0] for r in reqs]
-    runner = T.Runner(built, kind)
+    runner = T.Runner(built, kind, front=front)
 
     def one(r):
-        p, m, q, b = r
-        return runner.get(p, m, query=q, req_body=b.encode('utf-8') if b else None)
+        p, m, q, b, h = r
+        return runner.get(p, m, query=q, req_body=b.encode('utf-8') if b else None, headers=h)
     obs = [one(r) for r in reqs]
     again = None
     if purity:
@@ -918,9 +927,11 @@ def run_tree(spec, kind, reqs, purity=False, instrument=True):
     root, na, nodes = view.fields()
     nodes_f = view.fields(nodisp=True)[2] if instrument else None
     lines = []
-    for o, (p, m, q, b) in zip(obs, reqs):
+    for o, (p, m, q, b, h) in zip(obs, reqs):
         pi = o['path_info'] if o['path_info'] is not None else p
         lines.append(' '.join([kind, T.enc_text(m.upper()), root, na, nodes, '-', T.enc_text(pi)]))
+        if front is not None and o.get('outer_path') is not None:
+            o['front_line'] = front_line(front, o['outer_path'], h)
         if instrument and o.get('disp_log'):
             # the same request for `find_handler` over the table of the dispatcher calls that were seen
             o['fline'] = ' '.join(['F', kind, T.enc_text(m.upper()), root, na, nodes_f, '-', T.enc_text(pi),
@@ -930,6 +941,18 @@ def run_tree(spec, kind, reqs, purity=False, instrument=True):
 
 def _enc_names(l):
     return '+'.join(T.enc_text(x) for x in l) or '-'
+
+
+def front_line(front, outer_path, headers):
+    """Driver line for the path rewriting of `VirtualHost` / `XMLRPCDispatcher`."""
+    if front[0] == 'xmlrpc':
+        return 'X ' + T.enc_text(outer_path)
+    h = headers or {}
+    domain = h.get('HTTP_HOST', 'localhost')
+    if front[2]:
+        domain = h.get('HTTP_X_FORWARDED_HOST', domain)
+    doms = ','.join('%s~%s' % (T.enc_text(k), T.enc_text(v)) for k, v in front[1].items()) or '-'
+    return ' '.join(['V', doms, T.enc_text(domain), T.enc_text(outer_path)])
 
 
 def disp_table(view, log):
@@ -968,24 +991,30 @@ def strip_obs(o):
 
 
 def check_batch(ctx, batch, compare_model=True):
-    """batch: list of (spec, kind, [(path, method[, query, body])…], purity[, instrument])."""
+    """batch: list of (spec, kind, [(path, method[, query, body, headers])…], purity[, instrument[, front]])."""
     pending = []
+    fronts = []
     for item in batch:
         spec, kind, reqs, purity = item[:4]
         instrument = item[4] if len(item) > 4 else True
+        front = item[5] if len(item) > 5 else None
         reqs = [_rq(r) for r in reqs]
-        built, view, obs, lines, again = run_tree(spec, kind, reqs, purity, instrument)
+        built, view, obs, lines, again = run_tree(spec, kind, reqs, purity, instrument, front)
         ndisp = sum(1 for nd in spec['nodes'] if nd.get('disp') is not None)
         mut = has_mut(spec)
         for what, sig in expose_oracle(built):
-            report_failure(ctx, _mk_case(spec, kind, reqs[0], instrument), what, sig, shrink_case)
+            report_failure(ctx, _mk_case(spec, kind, reqs[0], instrument, front), what, sig, shrink_case)
         if built.exposed_by_decorator:
             ctx.count('expose_decorator_checked', len(built.exposed_by_decorator))
         for k, (r, o) in enumerate(zip(reqs, obs)):
-            p, m, q, b = r
-            case = _mk_case(spec, kind, r, instrument)
+            p, m, q, b, hd = r
+            case = _mk_case(spec, kind, r, instrument, front)
             nseg = len([s for s in (o['path_info'] or p).split('/') if s])
-            ctx.case(case, nontrivial=nseg > 0, key=json.dumps([spec, kind, p, m, q, b], sort_keys=True))
+            ctx.case(case, nontrivial=nseg > 0, key=json.dumps([spec, kind, p, m, q, b, hd, front], sort_keys=True))
+            if front:
+                ctx.count('front:' + front[0])
+                if o.get('front_line'):
+                    fronts.append((case, o['front_line'], o['path_info']))
             ctx.count('kind:' + kind)
             ctx.count('segments:%d' % min(nseg, 7))
             ctx.count('status:%d' % o['status'])
@@ -1033,6 +1062,15 @@ def check_batch(ctx, batch, compare_model=True):
                 pending.append((case, view, kind, strip_obs(o), o['fline'], True))
     if not compare_model:
         return
+    if fronts:
+        fout = ctx.model([f[1] for f in fronts])
+        for (case, line, inner), mline in zip(fronts, fout or []):
+            ctx.compared()
+            if mline == 'bad-op':
+                raise common.HarnessError('driver rejected %r' % line)
+            if T.dec_text(mline) != inner:
+                ctx.disagree(case, {'inner_path_info': inner}, {'model_line': mline, 'inner_path_info': T.dec_text(mline)},
+                             'path handed to the default dispatcher by the %s wrapper differs' % case['front'][0])
     out = ctx.model([p[4] for p in pending])
     if out is None:
         return
@@ -1250,8 +1288,190 @@ def gen_batch(rng, n_trees, reqs_per_tree=8):
         if i % 7 == 3:
             reqs = [(p, m, rng.choice(QUERIES), rng.choice(BODIES) if m in ('POST', 'PUT') else None)
                     for p, m in reqs]
+        if i % 9 == 5:
+            front, reqs = gen_front(rng, spec, reqs)
+            batch.append((spec, kind, reqs, i % 4 == 0, True, front))
+            continue
         batch.append((spec, kind, reqs, i % 4 == 0))
     return batch
+
+
+HOSTS = ['a.example', 'www.a.example', 'b.example:8080', 'c.example', 'd.example', 'localhost']
+
+
+def gen_front(rng, spec, reqs):
+    """A `VirtualHost` (host -> prefix built from the tree's own names) or `XMLRPCDispatcher` wrapper in front of
+    the dispatcher, and requests with Host / X-Forwarded-Host headers."""
+    if rng.random() < 0.3:
+        out = []
+        for r in reqs:
+            r = _rq(r)
+            p = r[0]
+            x = rng.random()
+            if x < 0.35:
+                p = '/RPC2' + p
+            elif x < 0.45:
+                p = '/RPC2'
+            elif x < 0.5:
+                p = '/rpc2' + p
+            out.append((p,) + r[1:])
+        return ['xmlrpc'], out
+    kids = [n for n, j in spec['nodes'][0]['kids']] or ['a']
+    domains = {}
+    for h in rng.sample(HOSTS, rng.choice([1, 2, 3, 4])):
+        x = rng.random()
+        k = rng.choice(kids)
+        if x < 0.5:
+            domains[h] = '/' + seg_variant(rng, k)
+        elif x < 0.65:
+            sub = [n for n, j in spec['nodes'][0]['kids'] if n == k]
+            domains[h] = '/' + k + '/' + rng.choice(NAMES)
+        elif x < 0.75:
+            domains[h] = '/' + k + '/'
+        elif x < 0.82:
+            domains[h] = ''
+        elif x < 0.9:
+            domains[h] = k
+        else:
+            domains[h] = '/' + rng.choice(UNKNOWN)
+    use_xfh = rng.random() < 0.7
+    out = []
+    for r in reqs:
+        r = _rq(r)
+        hd = {}
+        if rng.random() < 0.85:
+            hd['HTTP_HOST'] = rng.choice(HOSTS)
+        if rng.random() < 0.35:
+            hd['HTTP_X_FORWARDED_HOST'] = rng.choice(HOSTS)
+        out.append(r[:4] + (hd,))
+    return ['vhost', domains, use_xfh], out
+
+
+# ----------------------------------------------------------------------------------------------
+# mounts: Tree.script_name / Tree.__call__ (model: DispatchFn.scriptName / treeRoute)
+# ----------------------------------------------------------------------------------------------
+MOUNT_KEYS = ['', '/app', '/app/sub', '/app/sub/deep', '/a', '/a.b', '/App', '/app2', '/x%20y', 'rel', '/app/', '//dbl']
+MOUNT_TAILS = ['', '/', '/x', '/x/y', 'x', '/sub', '/subx', '/sub/', '/sub/deep/z', '//x', '/x//', '/a.b/c', '/index']
+
+
+def gen_mount_case(rng):
+    keys = rng.sample(MOUNT_KEYS, rng.choice([1, 2, 3, 4, 5]))
+    if rng.random() < 0.5 and '' not in keys:
+        keys.append('')
+    reqs = []
+    for _ in range(8):
+        r = rng.random()
+        base = rng.choice(keys) if r < 0.6 else rng.choice(MOUNT_KEYS) if r < 0.85 else rng.choice(['/zz', '/ap', '/apps'])
+        pi = base + rng.choice(MOUNT_TAILS)
+        sn0 = rng.choice(['', '', '', '/app', '/app/', '/zz', 'rel'])
+        if sn0 and rng.random() < 0.5 and pi.startswith(sn0):
+            pi = pi[len(sn0):]
+        reqs.append([sn0, pi])
+    return {'mounts': keys, 'reqs': reqs}
+
+
+def run_mounts(case):
+    """Mount one probe application per key on a fresh `Tree` and send the requests through `Tree.__call__`;
+    also ask `Tree.script_name(path)` directly.  Returns (keys as stored, [obs])."""
+    import io
+    cherrypy = T.cp()
+    from cherrypy import _cptree
+    tree = _cptree.Tree()
+    journal = []
+
+    def make_root(i):
+        def default(self, *a, **kw):
+            journal.append((i, list(a), cherrypy.request.script_name, cherrypy.request.path_info))
+            return 'ok'
+        default.exposed = True
+        return type('Mount%d' % i, (object,), {'default': default, 'index': default})()
+    for i, k in enumerate(case['mounts']):
+        app = tree.mount(make_root(i), k, {'/': {'tools.trailing_slash.on': False}})
+        app.log.screen = False
+        app.log.error_file = ''
+        app.log.access_file = ''
+    keys = list(tree.apps.keys())
+    obs = []
+    for sn0, pi in case['reqs']:
+        del journal[:]
+        environ = {
+            'REQUEST_METHOD': 'GET', 'SCRIPT_NAME': sn0, 'PATH_INFO': pi, 'QUERY_STRING': '',
+            'SERVER_NAME': 'localhost', 'SERVER_PORT': '80', 'SERVER_PROTOCOL': 'HTTP/1.1',
+            'CONTENT_LENGTH': '0', 'wsgi.version': (1, 0), 'wsgi.url_scheme': 'http',
+            'wsgi.input': io.BytesIO(b''), 'wsgi.errors': io.StringIO(), 'wsgi.multithread': False,
+            'wsgi.multiprocess': False, 'wsgi.run_once': False, 'REMOTE_ADDR': '127.0.0.1', 'HTTP_HOST': 'localhost',
+        }
+        got = {}
+
+        def start_response(status, headers, exc_info=None):
+            got['status'] = status
+        o = {'sn0': sn0, 'pi': pi}
+        try:
+            res = tree(environ, start_response)
+            try:
+                b''.join(res)
+            finally:
+                if hasattr(res, 'close'):
+                    res.close()
+            o['status'] = int(got['status'].split()[0])
+        except Exception as e:          # an observation, not a harness error
+            o['status'] = 'raised ' + type(e).__name__
+        o['ran'] = [list(j) for j in journal]
+        try:
+            import posixpath  # noqa: F401  (nothing from cherrypy: the joined path is computed by hand)
+            joined = '/'.join(x for x in (sn0, pi) if x)
+            while '//' in joined:
+                joined = joined.replace('//', '/')
+            joined = joined or '/'
+            o['joined'] = joined
+            o['script_name_of_joined'] = tree.script_name(joined)
+        except Exception as e:
+            o['script_name_of_joined'] = 'raised ' + type(e).__name__
+        obs.append(o)
+    return keys, obs
+
+
+def check_mounts(ctx, cases):
+    lines, meta = [], []
+    for case in cases:
+        keys, obs = run_mounts(case)
+        apps = ','.join(T.enc_text(k) for k in keys) or '-'
+        for (sn0, pi), o in zip(case['reqs'], obs):
+            single = {'mounts': case['mounts'], 'reqs': [[sn0, pi]]}
+            ctx.case(single, nontrivial=True, key=json.dumps(single, sort_keys=True))
+            ctx.count('mounts:%d' % len(keys))
+            ctx.count('mount_status:%s' % o['status'])
+            # exposed-only holds trivially here (every probe is exposed); at most one handler per request
+            if len(o['ran']) > 1:
+                ctx.oracle_fail(single, 'more than one handler ran: %s' % o['ran'], 'multiple_handlers')
+            lines.append(' '.join(['S', apps, T.enc_text(sn0), T.enc_text(pi)]))
+            meta.append((single, o, 'S'))
+            lines.append(' '.join(['T', apps, T.enc_text(o.get('joined', '/'))]))
+            meta.append((single, o, 'T'))
+    out = ctx.model(lines)
+    if out is None:
+        return
+    for (single, o, op), mline in zip(meta, out):
+        ctx.compared()
+        if mline == 'bad-op':
+            raise common.HarnessError('driver rejected a mount line for %s' % json.dumps(single))
+        if op == 'T':
+            want = None if mline == 'N' else T.dec_text(mline)
+            if o['script_name_of_joined'] != want:
+                ctx.disagree(single, {'Tree.script_name': o['script_name_of_joined'], 'path': o.get('joined')},
+                             {'model_line': mline, 'script_name': want}, 'Tree.script_name(path) differs')
+            continue
+        if mline == 'N':
+            exp = {'status': 404, 'ran': []}
+            got = {'status': o['status'], 'ran': o['ran']}
+        else:
+            sn, rest = [T.dec_text(x) for x in mline.split(' ')]
+            exp = {'script_name': sn, 'path_info': rest}
+            got = {'script_name': o['ran'][0][2], 'path_info': o['ran'][0][3]} if len(o['ran']) == 1 else \
+                {'status': o['status'], 'ran': o['ran']}
+        if exp != got:
+            ctx.disagree(single, got, {'model_line': mline, 'expected': exp},
+                         'mount chosen by Tree.__call__ / path_info handed to the application differ')
 
 
 def enum_small():
@@ -1341,11 +1561,14 @@ def corpus_cases():
 
 
 def _case_batch(c):
-    return (c['tree'], c['kind'], [_case_req(c)], True, not c.get('plain'))
+    return (c['tree'], c['kind'], [_case_req(c)], True, not c.get('plain'), c.get('front'))
 
 
 def check_case(ctx, c):
     """One stored case (corpus / replay), with its history when it has one."""
+    if 'mounts' in c:
+        check_mounts(ctx, [c])
+        return
     if c.get('history'):
         for what, sig in case_messages(c):
             ctx.oracle_fail(c, what, sig)
@@ -1410,7 +1633,9 @@ def run(ctx):
     if ctx.quick():
         check_batch(ctx, gen_batch(ctx.rng, 900))
         check_batch(ctx, gen_batch_levels(ctx.rng, 320))
+        check_mounts(ctx, [gen_mount_case(ctx.rng) for _ in range(60)])
         return
+    check_mounts(ctx, [gen_mount_case(ctx.rng) for _ in range(1500)])
     _WORKER_LEAN[0] = ctx.lean
     jobs = [(ctx.rng.randrange(1 << 30), 1200, 'thorough') for _ in range(48)]
     for res in common.parallel_map(_worker, jobs):
@@ -1455,8 +1680,16 @@ def search(ctx, around=None):
 
 
 def replay(ctx, case):
+    if 'mounts' in case:
+        keys, obs = run_mounts(case)
+        print('mounted:', keys)
+        for o in obs:
+            print('impl   :', json.dumps(o))
+        check_mounts(ctx, [case])
+        return
     spec, kind = case['tree'], case['kind']
-    built, view, obs, lines, again = run_tree(spec, kind, [_case_req(case)], True, not case.get('plain'))
+    built, view, obs, lines, again = run_tree(spec, kind, [_case_req(case)], True, not case.get('plain'),
+                                              case.get('front'))
     print('request:', case['method'], case['path'], '(dispatcher %s)' % kind,
           'query=%r body=%r' % (case.get('query'), case.get('body')))
     print('impl   :', json.dumps(strip_obs(obs[0])))
